@@ -97,6 +97,33 @@ fn cond_as_test(cond: &syn::Expr) -> Option<(syn::Expr, syn::Pat, bool)> {
                 None
             }
         }
+        syn::Expr::Binary(b) if matches!(b.op, syn::BinOp::Or(_)) => {
+            // `x == 'a' || x == 'b'` / `matches!(x, 'a') || x == 'b'` on one side-effect-free scrutinee: one test
+            fn pure_place(e: &syn::Expr) -> bool {
+                match e {
+                    syn::Expr::Path(_) | syn::Expr::Lit(_) => true,
+                    syn::Expr::Field(f) => pure_place(&f.base),
+                    syn::Expr::Index(i) => pure_place(&i.expr) && pure_place(&i.index),
+                    syn::Expr::Paren(p) => pure_place(&p.expr),
+                    syn::Expr::Unary(u) => matches!(u.op, syn::UnOp::Deref(_)) && pure_place(&u.expr),
+                    _ => false,
+                }
+            }
+            let (ls, lp, ln) = cond_as_test(&b.left)?;
+            let (rs, rp, rn) = cond_as_test(&b.right)?;
+            if ln || rn || !pure_place(&ls) || sm::tsc(&ls) != sm::tsc(&rs) {
+                return None;
+            }
+            if matches!(&*b.left, syn::Expr::Let(_)) || matches!(&*b.right, syn::Expr::Let(_)) {
+                return None;
+            }
+            let binds = |p: &syn::Pat| sm::ts(p).split(|c: char| !c.is_alphanumeric() && c != '_' && c != '\'').any(|w| w.chars().next().map_or(false, |c| c.is_lowercase()) && !w.starts_with('\''));
+            if binds(&lp) || binds(&rp) {
+                return None;
+            }
+            let joined = parse_pat(&format!("{} | {}", sm::ts(&lp), sm::ts(&rp)))?;
+            Some((ls, joined, false))
+        }
         syn::Expr::Macro(m) if m.mac.path.is_ident("matches") => {
             let parsed = m.mac.parse_body_with(|input: syn::parse::ParseStream| {
                 let e: syn::Expr = input.parse()?;
@@ -400,8 +427,19 @@ impl VisitMut for SelfResolver {
             // Self::X  ->  Type::X   (a bare `Self` as a type or constructor is left alone: it may carry generics)
             let first = p.segments.first_mut().unwrap();
             first.ident = proc_macro2::Ident::new(&self.name, first.ident.span());
+        } else if p.leading_colon.is_none() && p.segments.len() == 1 && p.segments[0].ident == "Self" && p.segments[0].arguments.is_empty() {
+            // a bare `Self` in expression / pattern position (types are not visited, see visit_type_mut)
+            let first = p.segments.first_mut().unwrap();
+            first.ident = proc_macro2::Ident::new(&self.name, first.ident.span());
+        }
+        if p.leading_colon.is_none() && p.segments.len() >= 2 && p.segments[0].ident == self.name {
+            // `Type::<T>::f` names the same item as `Type::f` inside the impl of `Type<T>`
+            p.segments[0].arguments = syn::PathArguments::None;
         }
         visit_mut::visit_path_mut(self, p);
+    }
+    fn visit_type_mut(&mut self, _t: &mut syn::Type) {
+        // `Self` as a type may stand for a generic instantiation; leave type positions alone
     }
     fn visit_macro_mut(&mut self, m: &mut syn::Macro) {
         let _ = &self.ty;
@@ -426,6 +464,34 @@ impl VisitMut for Normalizer {
             }
         }
         visit_mut::visit_item_impl_mut(self, i);
+    }
+
+    fn visit_path_mut(&mut self, p: &mut syn::Path) {
+        // `std::char::from_u32` / `core::char::from_u32` / `char::from_u32` (after `use std::char`) name one item:
+        // a standard-library path keeps its last two segments in expression position
+        // (`module::item` / `Type::assoc`) -- see visit_type_path_mut for types
+        let std_root = p.segments.first().map_or(false, |s| (s.ident == "std" || s.ident == "core" || s.ident == "alloc") && s.arguments.is_empty());
+        if std_root && p.segments.len() >= 3 {
+            let keep: Vec<syn::PathSegment> = p.segments.iter().skip(p.segments.len() - 2).cloned().collect();
+            p.leading_colon = None;
+            p.segments = keep.into_iter().collect();
+        }
+        visit_mut::visit_path_mut(self, p);
+    }
+
+    fn visit_type_path_mut(&mut self, t: &mut syn::TypePath) {
+        // a standard-library type is named by its last segment (`std::iter::Peekable<..>` -> `Peekable<..>`)
+        let p = &mut t.path;
+        let std_root = t.qself.is_none() && p.segments.first().map_or(false, |s| (s.ident == "std" || s.ident == "core" || s.ident == "alloc") && s.arguments.is_empty());
+        if std_root && p.segments.len() >= 2 {
+            let last = p.segments.last().cloned().unwrap();
+            p.leading_colon = None;
+            p.segments = std::iter::once(last).collect();
+        }
+        // generic arguments only: the expression-path rule above must not shorten a type to two segments
+        for seg in t.path.segments.iter_mut() {
+            self.visit_path_arguments_mut(&mut seg.arguments);
+        }
     }
 
     fn visit_expr_struct_mut(&mut self, st: &mut syn::ExprStruct) {
